@@ -93,6 +93,18 @@ class IncompatibleRunnerError(Exception):
         super().__init__(message)
 
 
+def describe_exception(exc: BaseException) -> str:
+    """``str(exc)`` for messages and events, without trusting it.
+
+    A user-defined exception whose ``__str__`` raises must not replace the
+    error it describes (or lose the event that reports it).
+    """
+    try:
+        return str(exc)
+    except Exception:  # noqa: BLE001 - whatever a broken __str__ raises
+        return f"<unprintable {type(exc).__qualname__}>"
+
+
 class ExecutionError(Exception):
     """Wraps an exception that occurred during graph execution.
 
@@ -105,5 +117,5 @@ class ExecutionError(Exception):
 
     def __init__(self, cause: BaseException, partial_state: GraphState) -> None:
         self.partial_state = partial_state
-        super().__init__(str(cause))
+        super().__init__(describe_exception(cause))
         self.__cause__ = cause
